@@ -17,6 +17,8 @@ def configs(tier, seed):
             cfgs.append(("c05", b, KEYS, full, False, 3 if b != "fs" else 2, seed))
         for b in ("mem", "fs+m", "fsc4", "fsc64"):
             cfgs.append(("c05", b, KEYS[1:3], ("s", "L", "X"), True, 5 if b == "mem" else 4, seed))
+        # weak-referenceable results (arrays the caller keeps holding), fitting and oversize, next to strings
+        cfgs.append(("c05", "fsc4", KEYS[1:3], ("s", "A", "AX"), True, 4, seed))
         # every history kept apart (no state merging) on a small alphabet: hidden state a change may
         # add to the library cannot be merged away by the canonical form
         for b in ("mem", "fs", "fsc4"):
@@ -29,11 +31,14 @@ def configs(tier, seed):
             cfgs.append(("c05", b, KEYS, full, False, 3 if b in ("fs+m", "fsc64") else 4, seed))
         for b in ("mem", "fs", "fs+m", "fsc4", "fsc64"):
             cfgs.append(("c05", b, KEYS[1:3], ("s", "L", "X", "N"), True, 6, seed))
+        for b in ("fsc4", "fsc4+m", "mem"):
+            cfgs.append(("c05", b, KEYS[1:3], ("s", "L", "A", "AX"), True, 5, seed))
+        cfgs.append(("c05", "fsc4", KEYS, ("s", "A", "AX"), False, 3, seed))
     return cfgs
 
 
 def run(ctx):
-    ctx.rule = ("BFS over storage-op histories (memoize by value class s/L/X/None/exception with and without key "
+    ctx.rule = ("BFS over storage-op histories (memoize by value class s/L/X/None/exception/held array fitting or oversize with and without key "
                 "override, get_memento, read_result, is_memoized, is_all_memoized, forget call/function/everything, "
                 "list_functions, list_mementos[limit], write/read metadata incl. stored-with-data) on real backends; "
                 "one history kept per canonical real state (file tree + cache + model, uuids and write ticks ranked); "
